@@ -111,6 +111,7 @@ def main(tier: str, seed: int, opts) -> int:
         "a forked child of an untouched zygote is equivalent to a fresh interpreter after imports",
         "programs inside one batch are independent because each starts from the asserted pristine format (config reset by the harness between programs)",
         "exceptions are injected into block bodies and into to_string(), never into __enter__/__exit__ themselves",
+        "8 % of the programs are run by a started-and-joined worker thread: thread identity without interleaving",
     ]
     ev.write()
     log(f"[C14] programs={programs} distinct_nontrivial={len(nthashes)} violations={len(rep.violations)} known={len(rep.known)}")
